@@ -46,9 +46,10 @@ VARIABLES
   tApplied,   \* target: writes in order of first application (deltas and direct writes)
   tw,         \* direct target writes issued
   ownS, ownT, \* does the source / target own H
+  bare,       \* the source was restarted and has not been given its delta target / forwarder again
   ev
 
-vars == <<phase, sidx, srcAcc, snapIdx, outbox, lastOut, fence, hasState, chan, sends, tDelta, tApplied, tw, ownS, ownT, ev>>
+vars == <<phase, sidx, srcAcc, snapIdx, outbox, lastOut, fence, hasState, chan, sends, tDelta, tApplied, tw, ownS, ownT, bare, ev>>
 
 Idx == 1..MaxSrc
 SortedSeq(S) == SetToSortSeq(S, <)
@@ -58,10 +59,10 @@ Init ==
   /\ phase = "snapshot" /\ sidx = 0 /\ srcAcc = {} /\ snapIdx = 0 /\ outbox = {} /\ lastOut = 0
   /\ fence = 0 /\ hasState = FALSE
   /\ chan = [i \in Idx |-> 0] /\ sends = [i \in Idx |-> 0]
-  /\ tDelta = {} /\ tApplied = <<>> /\ tw = 0 /\ ownS = TRUE /\ ownT = FALSE
+  /\ tDelta = {} /\ tApplied = <<>> /\ tw = 0 /\ ownS = TRUE /\ ownT = FALSE /\ bare = FALSE
   /\ ev = [a |-> "Init"]
 
-Migrating == phase \in {"delta", "switching"}   \* the source has a runtime delta target for H
+Migrating == phase \in {"delta", "switching"} /\ ~bare   \* the source has a runtime delta target for H
 
 -------------------------------------------------------------------------------
 \* One source command on top of a running record r of the batch.
@@ -106,7 +107,7 @@ SrcApply(ks, lose) ==
                    /\ sends' = [i \in Idx |-> IF i \in F /\ ~lose THEN sends[i] + 1 ELSE sends[i]]
               /\ ev' = [a |-> "SrcApply", ks |-> ks, lose |-> lose, res |-> [err |-> FALSE, results |-> r.res, fwd |-> r.fwd]]
   /\ sidx' = sidx + Len(ks)      \* refused entries keep their log index
-  /\ UNCHANGED <<snapIdx, tDelta, tApplied, tw, ownS, ownT>>
+  /\ UNCHANGED <<snapIdx, tDelta, tApplied, tw, ownS, ownT, bare>>
 
 \* Orchestrator: start the delta phase (delta target, snapshot export, import on the target).
 StartDelta ==
@@ -114,26 +115,29 @@ StartDelta ==
   /\ phase' = "delta"
   /\ snapIdx' = sidx
   /\ ev' = [a |-> "StartDelta", res |-> [err |-> FALSE]]
-  /\ UNCHANGED <<sidx, srcAcc, outbox, lastOut, fence, hasState, chan, sends, tDelta, tApplied, tw, ownS, ownT>>
+  /\ UNCHANGED <<sidx, srcAcc, outbox, lastOut, fence, hasState, chan, sends, tDelta, tApplied, tw, ownS, ownT, bare>>
 
 \* One delta on top of a running record of the target batch.
 TgtOne(r, i) ==
   IF i \in r.delta THEN r                                                     \* replayed delta: no-op
   ELSE [delta |-> r.delta \cup {i}, app |-> IF i \in srcAcc THEN Append(r.app, i) ELSE r.app]
 
-\* ApplyBatch on the target with the deltas ms (1 or 2 source indexes, possibly equal),
+RECURSIVE TgtFold(_, _, _)
+TgtFold(r, ms, j) == IF j > Len(ms) THEN r ELSE TgtFold(TgtOne(r, ms[j]), ms, j + 1)
+
+Copies(ms, i) == Cardinality({q \in 1..Len(ms) : ms[q] = i})
+
+\* ApplyBatch on the target with the deltas ms (1 to 3 source indexes, possibly equal),
 \* each taken from the channel.
 Deliver(ms) ==
-  /\ Len(ms) \in 1..2
-  /\ \A j \in 1..Len(ms) : chan[ms[j]] >= Cardinality({q \in 1..Len(ms) : ms[q] = ms[j]})
-  /\ LET r0 == [delta |-> tDelta, app |-> tApplied]
-         r1 == TgtOne(r0, ms[1])
-         r  == IF Len(ms) = 1 THEN r1 ELSE TgtOne(r1, ms[2])
+  /\ Len(ms) \in 1..3
+  /\ \A j \in 1..Len(ms) : chan[ms[j]] >= Copies(ms, ms[j])
+  /\ LET r == TgtFold([delta |-> tDelta, app |-> tApplied], ms, 1)
      IN /\ tDelta' = r.delta
         /\ tApplied' = r.app
-  /\ chan' = [i \in Idx |-> chan[i] - Cardinality({q \in 1..Len(ms) : ms[q] = i})]
+  /\ chan' = [i \in Idx |-> chan[i] - Copies(ms, i)]
   /\ ev' = [a |-> "Deliver", ms |-> ms, res |-> [err |-> FALSE]]
-  /\ UNCHANGED <<phase, sidx, srcAcc, snapIdx, outbox, lastOut, fence, hasState, sends, tw, ownS, ownT>>
+  /\ UNCHANGED <<phase, sidx, srcAcc, snapIdx, outbox, lastOut, fence, hasState, sends, tw, ownS, ownT, bare>>
 
 \* Channel faults.
 Dup(i) ==
@@ -141,13 +145,13 @@ Dup(i) ==
   /\ chan' = [chan EXCEPT ![i] = @ + 1]
   /\ sends' = [sends EXCEPT ![i] = @ + 1]
   /\ ev' = [a |-> "Dup", i |-> i, res |-> [err |-> FALSE]]
-  /\ UNCHANGED <<phase, sidx, srcAcc, snapIdx, outbox, lastOut, fence, hasState, tDelta, tApplied, tw, ownS, ownT>>
+  /\ UNCHANGED <<phase, sidx, srcAcc, snapIdx, outbox, lastOut, fence, hasState, tDelta, tApplied, tw, ownS, ownT, bare>>
 
 Drop(i) ==
   /\ chan[i] >= 1
   /\ chan' = [chan EXCEPT ![i] = @ - 1]
   /\ ev' = [a |-> "Drop", i |-> i, res |-> [err |-> FALSE]]
-  /\ UNCHANGED <<phase, sidx, srcAcc, snapIdx, outbox, lastOut, fence, hasState, sends, tDelta, tApplied, tw, ownS, ownT>>
+  /\ UNCHANGED <<phase, sidx, srcAcc, snapIdx, outbox, lastOut, fence, hasState, sends, tDelta, tApplied, tw, ownS, ownT, bare>>
 
 \* Orchestrator: read the durable outbox (ListHashSlotMigrationOutbox) and re-send the rows Snt.
 Retry(Snt) ==
@@ -156,7 +160,7 @@ Retry(Snt) ==
   /\ chan'  = [i \in Idx |-> IF i \in Snt THEN chan[i] + 1 ELSE chan[i]]
   /\ sends' = [i \in Idx |-> IF i \in Snt THEN sends[i] + 1 ELSE sends[i]]
   /\ ev' = [a |-> "Retry", sent |-> SortedSeq(Snt), res |-> [err |-> FALSE, rows |-> SortedSeq(outbox)]]
-  /\ UNCHANGED <<phase, sidx, srcAcc, snapIdx, outbox, lastOut, fence, hasState, tDelta, tApplied, tw, ownS, ownT>>
+  /\ UNCHANGED <<phase, sidx, srcAcc, snapIdx, outbox, lastOut, fence, hasState, tDelta, tApplied, tw, ownS, ownT, bare>>
 
 \* Orchestrator: acknowledge a delta the target has applied (replicated ack command on the source).
 Ack(i) ==
@@ -166,16 +170,16 @@ Ack(i) ==
   /\ sidx' = sidx + 1
   /\ outbox' = IF hasState /\ i <= lastOut THEN outbox \ {i} ELSE outbox
   /\ ev' = [a |-> "Ack", i |-> i, res |-> [err |-> FALSE]]
-  /\ UNCHANGED <<phase, srcAcc, snapIdx, lastOut, fence, hasState, chan, sends, tDelta, tApplied, tw, ownS, ownT>>
+  /\ UNCHANGED <<phase, srcAcc, snapIdx, lastOut, fence, hasState, chan, sends, tDelta, tApplied, tw, ownS, ownT, bare>>
 
 \* Orchestrator: hand H over once the fence and every outbox row reached the target.
 Switch ==
-  /\ phase = "switching"
+  /\ phase = "switching" /\ ~bare
   /\ fence \in tDelta
   /\ outbox \subseteq tDelta
   /\ phase' = "done" /\ ownS' = FALSE /\ ownT' = TRUE
   /\ ev' = [a |-> "Switch", res |-> [err |-> FALSE]]
-  /\ UNCHANGED <<sidx, srcAcc, snapIdx, outbox, lastOut, fence, hasState, chan, sends, tDelta, tApplied, tw>>
+  /\ UNCHANGED <<sidx, srcAcc, snapIdx, outbox, lastOut, fence, hasState, chan, sends, tDelta, tApplied, tw, bare>>
 
 \* An ordinary write for H sent to the target.  Identified as 1000 + n (MaxSrc < 1000).
 TgtWrite ==
@@ -186,7 +190,7 @@ TgtWrite ==
             /\ ev' = [a |-> "TgtWrite", n |-> tw + 1, res |-> [err |-> FALSE]]
        ELSE /\ tApplied' = tApplied
             /\ ev' = [a |-> "TgtWrite", n |-> tw + 1, res |-> [err |-> TRUE]]
-  /\ UNCHANGED <<phase, sidx, srcAcc, snapIdx, outbox, lastOut, fence, hasState, chan, sends, tDelta, ownS, ownT>>
+  /\ UNCHANGED <<phase, sidx, srcAcc, snapIdx, outbox, lastOut, fence, hasState, chan, sends, tDelta, ownS, ownT, bare>>
 
 \* Orchestrator: delete the source's migration state and outbox after the hand-over.
 Cleanup ==
@@ -195,16 +199,31 @@ Cleanup ==
   /\ sidx' = sidx + 1
   /\ outbox' = {} /\ hasState' = FALSE /\ fence' = 0 /\ lastOut' = 0
   /\ ev' = [a |-> "Cleanup", res |-> [err |-> FALSE]]
-  /\ UNCHANGED <<phase, srcAcc, snapIdx, chan, sends, tDelta, tApplied, tw, ownS, ownT>>
+  /\ UNCHANGED <<phase, srcAcc, snapIdx, chan, sends, tDelta, tApplied, tw, ownS, ownT, bare>>
 
 \* Process restart of one machine: a new state machine object over the same database; the
 \* orchestrator supplies the runtime tables (ownership, delta target, forwarder) again.
 Restart(who) ==
+  /\ ~bare
   /\ ev' = [a |-> "Restart", who |-> who, res |-> [err |-> FALSE]]
+  /\ UNCHANGED <<phase, sidx, srcAcc, snapIdx, outbox, lastOut, fence, hasState, chan, sends, tDelta, tApplied, tw, ownS, ownT, bare>>
+
+\* Restart of the source after the fence, with the delta target and forwarder supplied only
+\* later (Resupply): in between the durable fence alone must keep writes for H out.
+RestartBare ==
+  /\ phase = "switching" /\ ~bare
+  /\ bare' = TRUE
+  /\ ev' = [a |-> "RestartBare", res |-> [err |-> FALSE]]
+  /\ UNCHANGED <<phase, sidx, srcAcc, snapIdx, outbox, lastOut, fence, hasState, chan, sends, tDelta, tApplied, tw, ownS, ownT>>
+
+Resupply ==
+  /\ bare
+  /\ bare' = FALSE
+  /\ ev' = [a |-> "Resupply", res |-> [err |-> FALSE]]
   /\ UNCHANGED <<phase, sidx, srcAcc, snapIdx, outbox, lastOut, fence, hasState, chan, sends, tDelta, tApplied, tw, ownS, ownT>>
 
 KindSeqs == {<<k>> : k \in Kinds} \cup {<<k1, k2>> : k1 \in Kinds, k2 \in Kinds}
-MsgSeqs  == {<<i>> : i \in Idx} \cup {<<i, j>> : i \in Idx, j \in Idx}
+MsgSeqs  == {<<i>> : i \in Idx} \cup {<<i, j>> : i \in Idx, j \in Idx} \cup {<<i, j, k>> : i \in Idx, j \in Idx, k \in Idx}
 
 Next ==
   \/ \E ks \in KindSeqs, lose \in Lose : SrcApply(ks, lose)
@@ -216,6 +235,8 @@ Next ==
   \/ TgtWrite
   \/ Cleanup
   \/ \E who \in {"src", "tgt"} : Restart(who)
+  \/ RestartBare
+  \/ Resupply
 
 Spec == Init /\ [][Next]_vars
 
@@ -252,5 +273,5 @@ C39_NonOwnerRefuses ==
 
 TypeOK == sidx \in 0..MaxSrc /\ tw \in 0..MaxTgtW /\ \A i \in Idx : chan[i] \in 0..MaxCopies
 
-View == <<phase, sidx, srcAcc, snapIdx, outbox, lastOut, fence, hasState, chan, sends, tDelta, tApplied, tw, ownS, ownT>>
+View == <<phase, sidx, srcAcc, snapIdx, outbox, lastOut, fence, hasState, chan, sends, tDelta, tApplied, tw, ownS, ownT, bare>>
 ===============================================================================
